@@ -306,6 +306,23 @@ class PandasAdapter(Adapter):
                           dtypes.Category()]),
             ("date", ["date", datetime.date, dtypes.Date, dtypes.Date()]),
         ]
+        # docs/source/dtype_validation.md "Support for the python typing module":
+        # the same spelling resolved twice must give equal objects
+        from typing import Dict, List, NamedTuple, Tuple, TypedDict
+
+        class _PointDict(TypedDict):
+            x: float
+            y: float
+
+        class _PointTuple(NamedTuple):
+            x: float
+            y: float
+
+        for lab, g in [("Dict[str,int]", Dict[str, int]), ("List[float]", List[float]),
+                       ("Tuple[int,str,float]", Tuple[int, str, float]),
+                       ("TypedDict-subclass", _PointDict),
+                       ("NamedTuple-subclass", _PointTuple)]:
+            fams.append((f"doc:typing:{lab}", [g, g]))
         # docs/source/dtype_validation.md "Pyarrow data types"
         fams.append(("doc:pyarrow_schema",
                      [pyarrow.float64(), "float64[pyarrow]",
